@@ -253,10 +253,22 @@ func registerVAPI(I map[string]intrinsicFn) {
 		if pa == nil || pb == nil {
 			return w.tc.Bool(pa == nil && pb == nil)
 		}
-		return w.tc.Eq(w.bigCmp((*pa).(BigVal), (*pb).(BigVal)), w.tc.Const(64, 0))
+		w.lazyCmp = true
+		defer func() { w.lazyCmp = false }()
+		x, y := (*pa).(BigVal), (*pb).(BigVal)
+		if x.T != nil && y.T != nil {
+			wd := bigWidth(x)
+			if bw := bigWidth(y); bw > wd {
+				wd = bw
+			}
+			return w.tc.Eq(w.tc.Sext(w.bigTerm(x, wd), wd), w.tc.Sext(w.bigTerm(y, wd), wd))
+		}
+		return w.tc.Eq(w.bigCmp(x, y), w.tc.Const(64, 0))
 	}
 	I[P+"vBigLess"] = func(w *Worker, fn *ssa.Function, a []Value) Value {
 		pa, pb := a[0].(Ptr), a[1].(Ptr)
+		w.lazyCmp = true
+		defer func() { w.lazyCmp = false }()
 		return w.tc.Eq(w.bigCmp((*pa).(BigVal), (*pb).(BigVal)), w.tc.Const(64, ^uint64(0)))
 	}
 	I[P+"vSmallGroup"] = func(w *Worker, fn *ssa.Function, a []Value) Value {
